@@ -434,3 +434,39 @@ def gen_switch_case(rng):
         t = Fraction(times[-1]) + rng.randint(1, 4)
     op = 'switch' if rng.random() < 0.5 else 'switch_before'
     return {'netlist': lines, 'op': op, 'args': {'t': '%d/%d' % (t.numerator, t.denominator)}, 's0': '2', 'tags': ['switch']}
+
+
+def gen_node_map(rng, lines, mode):
+    """a PARTIAL (sometimes complete) node map for renumber.  mode: small =
+    numeral targets inside 1..N (the range augment_node_map draws its fresh
+    numbers from), big = numerals above N, sym = symbolic names, mixed"""
+    elems = [{'name': l.split()[0], 'type': 'W' if l.split()[0] == 'W' else 'X', 'nodes': l.split()[1:3]} for l in lines]
+    uf = classes(elems)
+    nodes = sorted({t for l in lines for t in l.split()[1:3]} - {'0'})
+    reps = sorted({uf.find(n) for n in nodes} - {'0'})
+    ncls = len({uf.find(n) for n in nodes} | {'0'})
+    # at most one node per class (two give 'Cannot rename two nodes of same potential'), rarely two on purpose
+    pick = []
+    for r in reps:
+        members = [n for n in nodes if uf.find(n) == r]
+        if rng.random() < 0.55:
+            pick.append(rng.choice(members))
+            if len(members) > 1 and rng.random() < 0.05:
+                pick.append(rng.choice(members))
+    if not pick and reps:
+        pick = [rng.choice([n for n in nodes if uf.find(n) == reps[0]])]
+    rng.shuffle(pick)
+    small = [str(i) for i in range(1, ncls + 1)]
+    big = [str(i) for i in range(ncls + 1, ncls + 12)]
+    sym = ['a', 'b', 'c', 'x9', 'out', 'in', 'mid', 'p', 'q', 'vdd', 'k7']
+    for l_ in (small, big, sym):
+        rng.shuffle(l_)
+    pool = {'small': small + big, 'big': big, 'sym': sym}.get(mode)
+    if pool is None:
+        pool = small + big[:3] + sym[:4]
+        rng.shuffle(pool)
+    m = {}
+    for k, n in enumerate(pick):
+        if k < len(pool):
+            m[n] = pool[k]
+    return m
